@@ -48,6 +48,24 @@ def r2_ids(ctx):
         r.check(bool(errs) and bool(adds), 'next_id|overflow', nid.file, 'StreamId::next_id has an overflow Err exit and adds 2')
         step = [core.op_const(rv[3])[0] for rv in adds if core.op_const(rv[3])]
         r.check(step == [2], 'next_id|step', nid.file, 'identifier step = %s (parity preserved)' % step)
+        # the value returned is exactly self.0 + 2, and it is the value compared with MAX
+        oks = [nid.expr_of_rvalue(rv) for bi, si, pl, rv, ln in nid.stmts() if rv[0] == 'aggr' and rv[2].endswith('Result::Ok')]
+        good = False
+        val = None
+        for e in oks:
+            inner = strip(e[3][0])
+            if inner[0] == 'aggr' and inner[2] == 'frame::stream_id::StreamId':
+                v = core.canon(inner[3][0])
+                if v[0] == 'bin' and v[1] == 'Add' and v[3][0] == 'const' and v[3][1] == 2 and v[2][0] == 'field' and core.canon(v[2][1]) == ('arg', 1):
+                    good = True
+                    val = v
+        r.check(good and len(oks) == 1, 'next_id|value', nid.file, 'Ok(StreamId(self.0 + 2)): %s' % [core.show(e)[:60] for e in oks])
+        cmpok = False
+        for bi, sw in core.all_switches(F, nid).items():
+            c = core.cmp_of(sw)
+            if c and c[0] == 'Gt' and val is not None and core.canon(c[1]) == val and any(k[1] == 2147483647 for k in core.consts_in(c[2])):
+                cmpok = True
+        r.check(cmpok, 'next_id|max-test', nid.file, 'that value is compared with StreamId::MAX before it is returned')
     sr = r.fn(P + 'streams::Streams::send_request')
     if sr:
         ens = [bi for bi, t in sr.calls_to(SEND + 'ensure_next_stream_id')]
